@@ -38,6 +38,11 @@ func Exec(w []string) (ans string, mine bool) {
 	}
 	switch w[0] {
 	case "frame", "rows", "hdr", "body", "falloc":
+	case "prim":
+		if len(w) != 2 {
+			return "bad-op", true
+		}
+		return primAnswer(w[1]), true
 	default:
 		return "", false
 	}
@@ -420,6 +425,9 @@ func Gen(r *vh.Rng, tier string, emit emitFn) {
 	}
 	g.headers(mult)
 	g.allocs(mult)
+	for _, n := range primFuncs {
+		emit("prim "+n, primAnswer(n), "prim", true)
+	}
 	Skipped += g.skipped
 }
 
